@@ -103,3 +103,76 @@ def ref_judge(cx, term, ctx=None, fuel=4000):
         return ("reject", r.why, rc, r.roles)
     except RefUnknown as u:
         return ("unknown", u.why, rc)
+
+
+
+# ---------------------------------------------------------------------------------------------
+# "Interplay" families: binders, definition groups and type aliases nested in each other -- the
+# shapes at which context offsets, group-type reconstruction and alias unfolding matter and which a
+# plain node budget of 4-5 nodes does not reach (witnesses of S-C05-02, S-C03-02, S-C19-01,
+# S-C18-02, S-C04-02 have 6-12 nodes).  Alphabets are per position; indices and literals symbolic.
+def interplay_families(holes, which="ABCD"):
+    """[(name, alphabet function, node budget)].  holes=False: fully annotated programs."""
+    ann = ["Type", "Integer"] + (["Unifier"] if holes else ["Variable"])
+    dfn = ["Type", "Integer", "Variable", "IntegerLiteral"]
+    out = []
+
+    def group_then_binder(n):
+        # u : type = type; v = int; (a : u) -> a
+        def alpha(node):
+            d, s = node.depth, node.slot
+            if d == 1:
+                return ["Let%d" % n]
+            if d == 2:
+                if s == 2 * n:
+                    return ["Pi", "Lambda"]
+                return ann if s % 2 == 0 else dfn
+            if d == 3:
+                return ["Variable", "Integer"] if s == 0 else ["Variable", "Integer", "Type"] + (["Pi"] if n == 2 else [])
+            return ["Variable", "Integer"]      # (d : v) => d -> int
+        return alpha
+    if "A" in which:
+        out.append(("aliases then a binder: a group of 1 leaf definition whose body is a function (type)", group_then_binder(1), 7))
+    if "B" in which:
+        out.append(("aliases then a binder: a group of 2 leaf definitions whose body is a function (type), possibly of a function type", group_then_binder(2), 11))
+
+    def group_under_binder(base):
+        # (a : type) => (t = a; u = 5; (x : t) => x)        [base = depth of the outer lambda]
+        def alpha(node):
+            d, s = node.depth - base, node.slot
+            if d == 1:
+                return ["Lambda"]
+            if d == 2:
+                return ["Type", "Integer"] if s == 0 else ["Let2"]
+            if d == 3:
+                if s == 4:
+                    return ["Lambda", "Variable"]
+                return (["Type", "Integer"] + (["Unifier"] if holes else [])) if s % 2 == 0 else ["Variable", "IntegerLiteral", "Integer"]
+            return ["Variable", "Integer"] if s == 0 else ["Variable"]
+        return alpha
+    if "C" in which:
+        out.append(("a group of 2 leaf definitions under a binder, its body a function or a member", group_under_binder(0), 11))
+    if "D" in which:
+        inner = group_under_binder(1)
+
+        def applied(node):
+            if node.depth == 1:
+                return ["Application"]
+            if node.depth == 2 and node.slot == 1:
+                return ["Integer", "Type", "IntegerLiteral"]
+            return inner(node)
+        out.append(("the same function applied to a leaf argument", applied, 13))
+
+    def group_in_annotation(node):
+        # c : (a = int; b = bool; a) = true; c
+        d, s = node.depth, node.slot
+        if d == 1:
+            return ["Let1"]
+        if d == 2:
+            return [["Let2"], ["True", "IntegerLiteral", "Integer", "Variable"], ["Variable"]][s]
+        if s == 4:
+            return ["Variable", "Integer"]
+        return (["Type"] + (["Unifier"] if holes else [])) if s % 2 == 0 else ["Integer", "Boolean", "Variable", "Type"]
+    if "E" in which:
+        out.append(("a group of 2 type aliases inside the annotation of a definition", group_in_annotation, 10))
+    return out
